@@ -3,7 +3,7 @@ from core import Case
 
 ID = "C19"
 THEOREMS = ["Portus.C19.fifo_invariant", "Portus.C19.per_sender_prefix", "Portus.C19.drained_all_once", "Portus.C19.empty_recv_is_error",
-            "Portus.C19.recv_returns_head", "Portus.C19.fits_recv_whole", "Portus.C19.dead_handle_is_err", "Portus.C19.sentOf_opsOf_filter",
+            "Portus.C19.recv_returns_head", "Portus.C19.fits_recv_whole", "Portus.C19.dead_handle_is_err", "Portus.C19.recv_never_panics", "Portus.C19.sentOf_opsOf_filter",
             "Portus.C19.model_accepted"]
 SPEC_IS_ORACLE = True
 RELATION = ("per sender, the sequence (sequence number, length, bytes intact, sender address right) of the datagrams the receiver got "
@@ -31,6 +31,9 @@ TECHNIQUE = "Lean 4 theorems over a FIFO transport model (all schedules) + Lean 
 
 def gen(ctx):
     rng = ctx.rng
+    for kind in ("chan", "unix"):
+        for mode in ("b", "nb"):
+            yield Case("XPT", "over %s %s" % (kind, mode), tags=("oversize",))
     yield Case("XPT", "dead chan", tags=("dead",))
     yield Case("XPT", "dead unix", tags=("dead",))
     big = 20000 if ctx.thorough else 3000
@@ -44,6 +47,11 @@ def gen(ctx):
                     if kind == "unix" and cap == 32768 and mode == "nb":
                         count = 32
                     yield Case("XPT", "%s %s %d %d %d %d" % (kind, mode, n, count, rng.randrange(1000), cap), tags=("burst",))
+    # the second constructor of the unix transport (socket buffer sizes given or not)
+    for mode in ("bs", "nbs"):
+        for n in (1, 2, 3, 4):
+            yield Case("XPT", "unix %s %d %d %d 1024" % (mode, n, big // 4, rng.randrange(1000)), tags=("skbuf",))
+            yield Case("XPT", "unix %s %d 17 %d 64" % (mode, n, rng.randrange(1000)), tags=("skbuf",))
     for _ in range(60 if ctx.thorough else 6):
         kind, mode = rng.choice(["chan", "unix"]), rng.choice(["b", "nb"])
         yield Case("XPT", "%s %s %d %d %d %d" % (kind, mode, rng.randrange(1, 5), rng.randrange(1, big), rng.randrange(1000),
@@ -67,8 +75,8 @@ def project(c, r):
 
 def classify(c, r):
     a = c.args.split(" ")
-    if a[0] == "dead":
-        return ["dead:" + r]
+    if a[0] in ("dead", "over"):
+        return [a[0] + ":" + r]
     inter = 0
     if r.startswith("SENT "):
         recs = r.split(" | ")[1][5:].split(",")
@@ -83,11 +91,11 @@ def classify(c, r):
 
 def nontrivial(c, r):
     a = c.args.split(" ")
-    return a[0] != "dead" and (int(a[2]) >= 2 or int(a[3]) >= 100)
+    return a[0] not in ("dead", "over") and (int(a[2]) >= 2 or int(a[3]) >= 100)
 
 
 def oracle(c, impl_res):
     a = c.args.split(" ")
-    if a[0] == "dead":
-        return ("ORC", "C19 dead @@ " + impl_res)
+    if a[0] in ("dead", "over"):
+        return ("ORC", "C19 %s @@ %s" % (a[0], impl_res))
     return ("ORC", "C19 %s %s %s %s %s @@ %s" % (a[2], a[3], a[4], a[5], a[1], impl_res))
